@@ -37,7 +37,10 @@ CLAIMED = {
    text='Theorems C07_hi_fits / C07_lo_fits / C07_rebuild are proved for EVERY integer v about the Gallina translation of '
         'asm.relocate_hi / relocate_lo / sign_extend that tools/py2coq.py regenerates from /repo on every run; the generated '
         'functions are additionally run against the Python originals, and %hi/%lo pairs assembled by the real assembler are '
-        'decoded by the extracted Spec decoder and recombined.',
+        'decoded by the extracted Spec decoder and recombined. THE CONSUMING PAIRS ON THE MACHINE (Proofs/RelocPairs*.v, sub-agent; pass model + generated encoders + Spec/Sem.v): '
+        'C07_lui_addi_pair -- `lui rd,%hi(e)` / `addi rd,rd,%lo(e)` leaves e mod 2^32 in rd and nothing else, for every expression that is not position-relative (literals, constants, bare labels, %position) and every integer value; '
+        'C07_lui_load_pair / C07_lui_store_pair (lb..lhu / sb..sw access exactly address v); the two-line programs through all 16 passes, also with compression; C07_pair_anywhere -- the pair anywhere in any program (compress = false) comes out as two adjacent 4-byte chunks with these bytes; '
+        'C07_auipc_jalr_pair / C07_auipc_addi_pair -- the TRUE theorem for hand-written auipc pairs: the second %offset is evaluated 4 bytes later (documented: relative to the current item), so the same label in both halves reaches L - 4 (C07_auipc_jalr_same_label_misses) and naming a label 4 bytes behind the target lands (C07_auipc_jalr_next_label_lands); call / tail set the pairing flag themselves (C05_call_far).',
    note='Trusted: Coq kernel, the py2coq translation of Python int operators to Z operators, extraction + OCaml drivers, the '
         'Spec decoder (decode32). Zero axioms (Print Assumptions: closed under the global context).',
    technique='Coq proof over a model regenerated from source by a translator; differential run of the generated functions; Spec-decoded falsifier',
